@@ -61,6 +61,7 @@ type Exec struct {
 	lemmaErrors []string
 	pure        int
 	partialMode bool
+	partialLoops bool
 	ufuns       map[string]*Ghost
 	retFrame    *Frame
 	hmArrays    map[string]string
@@ -563,7 +564,9 @@ func (x *Exec) oblige(st *State, fr *Frame, kind, tag string, in interface{}, id
 		return // evaluating a side-effect free function as a term: obligations are generated elsewhere
 	}
 	if x.partialMode && kind != "ensures" && kind != "assert@call" {
-		return // `partial` contract: only the listed ensures / asserts are claimed for this function
+		if !(x.partialLoops && (strings.Contains(kind, "/invariant") || strings.HasSuffix(kind, "/decreases") || kind == "frame")) {
+			return // `partial` contract: only the listed ensures / asserts are claimed for this function
+		}
 	}
 	if goal == "true" {
 		// still record trivially-true obligations? no: keep counts honest, record as discharged-by-construction
